@@ -320,6 +320,27 @@ def column_unit(ctx, lexpr):
                         if v is not None:
                             n_sw += 1
                             special_slice.add(v)
+    # the recount evaluated on the two-byte input `A b` for every b: a byte after which the position differs from the one
+    # after an ordinary byte is special, however the recount singles it out (a range arm, a mask, a table).  Used only
+    # when all 256 evaluations are exact; otherwise the bytes named in the code (above) stand.
+    try:
+        from .. import lex
+        evald = {}
+        for b in range(256):
+            rd = lex.slice_reader(lexpr, [0x41, b])
+            if rd is None:
+                raise sim.Limit("shape")
+            S = sim.Sim([lexpr], inline=lex.helper_inline(lexpr), max_paths=200, max_depth=6, max_visits=6)
+            S.structural_vec = True
+            outs = {(q.end, repr(q.ret)) for q in S.run(sl, args={1: sim.Ref([rd], 0, ()), 2: 2})}
+            if len(outs) != 1 or next(iter(outs))[0] != "return" or "?" in next(iter(outs))[1] or "<" in next(iter(outs))[1]:
+                raise sim.Limit("inexact")
+            evald[b] = next(iter(outs))[1]
+        special_slice = {b for b in range(256) if evald[b] != evald[0x41]}
+        n_sw = max(n_sw, 1)
+        r.note("slice recount evaluated on `A b` for all 256 byte values: %d special" % len(special_slice))
+    except Exception:
+        pass
     if n_sw == 0:
         r.anchor_missing("byte dispatch in SliceRead::position_of_index")
         return
